@@ -373,7 +373,7 @@ func checkProp(p *Prop, tier, onlyRun string, keepLogs, trace, validate bool) in
 			if !out.Reproduces(v.Ob) && r.Cfg.Sched && hasSelectChoice(v.Values) {
 				// a select with several ready cases: the schedule controller cannot force the Go
 				// runtime's pseudo-random pick, so the replay is repeated until the pick matches
-				for try := 0; try < 10 && !out.Reproduces(v.Ob); try++ {
+				for try := 0; try < 3 && !out.Reproduces(v.Ob) && !out.TimedOut; try++ {
 					out = gosym.RunReplay(dir, nil)
 				}
 			}
